@@ -277,6 +277,24 @@ class OProduct(OSet):
         pa, pb, prm2 = self.bind(p, prm)
         return L.And(self.a.positive_at(pa, prm2, L), self.b.positive_at(pb, prm, L))
 
+    def positive(self, prm, L):
+        """every fibre has positive measure: checked at the corners of b's bounding box, which
+        suffices for shape parameters that are affine in b's coordinates"""
+        conj = [self.b.positive(prm, L)]
+        bb = self.b.bbox(prm, L)
+        if bb is None:
+            conj.append(self.a.positive(prm, L))
+            return L.And(*conj)
+        import itertools
+        for corner in itertools.product(*bb):
+            prm2 = dict(prm)
+            k = 0
+            for name, d in self.b_vars:
+                prm2[name] = list(corner[k:k + d])
+                k += d
+            conj.append(self.a.positive(prm2, L))
+        return L.And(*conj)
+
 
 class OTranslate(OSet):
     def __init__(self, inner, vec):
